@@ -151,6 +151,14 @@ def run_unit(unit, st, tier):
                 if kk not in seen:
                     seen[kk] = (out, exp, hist + [[op, k]])
                     nxt.append(kk)
+            if len(seen) > 2 * n:
+                break
+        if len(seen) > 2 * n:
+            # the dihedral group of a record of length n has at most 2n elements: the search would not close
+            st.violation("edge", "more-reachable-states-than-the-dihedral-group", dict(n=n, table_slice=[s, nsl], history=[], op="rc", k=0),
+                         "<= %d states" % (2 * n), len(seen))
+            st.caps.append("n={}: search stopped at {} states (> 2n)".format(n, len(seen)))
+            break
         frontier = nxt
     st.states += len(seen)
     st.goal("closure-reached")
